@@ -106,6 +106,21 @@ def run(path, rlimit=None, seed=None, extra=(), timeout=1800, threads=None):
                 total_ms=summary.get('times-ms', {}).get('total'), raw_err=err if (fe or not vr) else '')
 
 
+_LINES = {}
+
+
+def _line(path, n):
+    """text of line n of a generated file (a `requires` line marked `// @panic-model` is the panic condition of a std function
+    modelled by a stub -- copy_from_slice, slice range -- so its failure is a possible panic, not a proof-scaffold matter)"""
+    if path not in _LINES:
+        try:
+            _LINES[path] = open(path).read().split('\n')
+        except OSError:
+            _LINES[path] = []
+    ls = _LINES[path]
+    return ls[n - 1] if 0 < n <= len(ls) else ''
+
+
 def attribute(res, meta):
     """attach tags + enclosing function to every diagnostic, using the generator's line tables."""
     tags = {int(k): v for k, v in meta['tags'].items()}
@@ -144,5 +159,6 @@ def attribute(res, meta):
         # a failed precondition of one of OUR contracted functions (clause located in the generated file) is a proof-scaffold
         # matter; a failed precondition of a std/vstd function (unwrap, index, slice range) is a possible panic
         d['user_pre'] = d['kind'] == 'pre' and any((s.get('label') or '').startswith('failed precondition') and os.path.basename(s.get('file', '')) == os.path.basename(meta['file'])
+                                                     and '@panic-model' not in _line(meta['file'], s['l0'])
                                                      for s in d['spans'])
     return res
